@@ -205,6 +205,12 @@ def shrink(mod, case, fail, pool, budget_s=25, known=()):
     if not hasattr(mod, 'shrink_candidates') or os.environ.get('VERIF_NO_SHRINK') == '1':
         return case, fail
     t0 = time.time()
+    # a history property records the operations it ran: replay them verbatim so that single operations can be dropped
+    if fail.get('ops') and '_ops' not in case:
+        c2 = dict(case, _ops=fail['ops'])
+        r2 = evaluate_cases(mod, [c2], None)
+        if r2 and r2[0][1] is not None and r2[0][1].get('clause') == fail.get('clause'):
+            case, fail = c2, r2[0][1]
     improved = True
     while improved and time.time() - t0 < budget_s:
         improved = False
